@@ -56,7 +56,7 @@ def d4(ctx, prog, base, bl, fc, fc_body):
         return
     book = self_attr(expand(apps[0].func.value))
     pm = astutil.parents(bl.node)
-    ga = [(norm(t), pol) for t, pol in normalize.conjuncts(astutil.guards(apps[0], pm, bl.node))]
+    ga = [(norm(expand(t)), pol) for t, pol in normalize.conjuncts(astutil.guards(apps[0], pm, bl.node))]
     ctx.check(ga == [('self.convergence_step', True)], 'C08-D4', f'{key} record', f'the processed count is recorded under the condition {ga}, not for every batch when a convergence step is set',
               'count recorded after every batch when a convergence step is set', bl.where(apps[0]))
 
@@ -125,8 +125,18 @@ def d4(ctx, prog, base, bl, fc, fc_body):
     except Exception as e:       # Undecidable
         ctx.undecided('C08-D3', fkey, f'final condition `{norm(test)}` not evaluable: {e}', fc.where(ifs[0]))
     # initial reference
-    inits = [s_ for f_ in base.methods.values() for s_ in ast.walk(f_.node) if isinstance(s_, ast.Assign) and self_attr(s_.targets[0]) == book and f_.name not in (bl.name,)]
-    ok = bool(inits) and all(isinstance(s_.value, ast.List) and len(s_.value.elts) == 1 and norm(s_.value.elts[0]) in ('0', 'self.processed_traces') for s_ in inits)
+    inits = []
+    for f_ in base.methods.values():
+        if f_.name == bl.name:
+            continue
+        for s_ in ast.walk(f_.node):
+            if isinstance(s_, ast.Assign) and len(s_.targets) == 1:
+                t_, v_ = s_.targets[0], s_.value
+                if self_attr(t_) == book and isinstance(t_, ast.Attribute):
+                    inits.append(v_)
+                elif isinstance(t_, ast.Tuple) and isinstance(v_, ast.Tuple) and len(t_.elts) == len(v_.elts):
+                    inits.extend(y_ for x_, y_ in zip(t_.elts, v_.elts) if self_attr(x_) == book)
+    ok = bool(inits) and all(isinstance(v_, ast.List) and len(v_.elts) == 1 and norm(v_.elts[0]) in ('0', 'self.processed_traces') for v_ in inits)
     ctx.check(ok, 'C08-D4', f'{base.key}::initial reference', 'the bookkeeping does not start from [0] (no traces, no point yet)', 'bookkeeping starts at [0]', base.mod.relpath)
 
 
